@@ -1,17 +1,26 @@
 //! vh — harness that runs /repo's implementation for the checks in /verif.
 //! Every call into /repo code is wrapped in catch_unwind: a panic is an observation.
 mod dep_run;
+mod edits_run;
 mod front;
 mod heap_run;
+mod lex_run;
+mod mir_types;
 mod mirsem;
+mod ops_table;
 mod opt_kernels;
 mod rng;
+mod scope_run;
 mod server_run;
 mod srcsem;
 mod std_dump;
+mod type_kernel;
+mod wasm_validate;
 
 fn main() {
-  std::panic::set_hook(Box::new(|_| {}));
+  if std::env::var("VH_BACKTRACE").is_err() {
+    std::panic::set_hook(Box::new(|_| {}));
+  }
   let args: Vec<String> = std::env::args().collect();
   if args.len() < 2 {
     eprintln!("usage: vh <subcommand> ...");
@@ -20,13 +29,20 @@ fn main() {
   let rest = &args[2..];
   match args[1].as_str() {
     "dep-run" => dep_run::main(rest),
+    "edits-run" => edits_run::main(rest),
     "front" => front::main(rest),
     "heap-run" => heap_run::main(rest),
+    "lex-run" => lex_run::main(rest),
+    "mir-types" => mir_types::main(rest),
     "mir-run" => mirsem::main(rest),
+    "ops-table" => ops_table::main(rest),
     "opt-kernels" => opt_kernels::main(rest),
+    "scope-run" => scope_run::main(rest),
     "server-run" => server_run::main(rest),
     "src-run" => srcsem::main(rest),
     "std-dump" => std_dump::main(rest),
+    "type-kernel" => type_kernel::main(rest),
+    "wasm-validate" => wasm_validate::main(rest),
     other => {
       eprintln!("unknown subcommand {other}");
       std::process::exit(2);
